@@ -303,6 +303,22 @@ impl DeclareCommand {
 
             self.apply_attributes_after_update(var, verb)?;
         } else {
+            // A local variable may not shadow a readonly one that is visible here.
+            if create_var_local
+                && context
+                    .shell
+                    .env()
+                    .get(name.as_str())
+                    .is_some_and(|(_, var)| var.is_readonly())
+            {
+                writeln!(
+                    context.stderr(),
+                    "{}: {name}: readonly variable",
+                    context.command_name
+                )?;
+                return Ok(false);
+            }
+
             let unset_type = if self.make_indexed_array.is_some() {
                 ShellValueUnsetType::IndexedArray
             } else if self.make_associative_array.is_some() {
